@@ -67,6 +67,7 @@ class Monitors(Listener):
         self.emits = []                   # (time, actor, obs, event, resource) as emitted
         self.reservation_sizes = {}       # obs -> size at creation
         self.ingested_so_far = {}         # obs -> total_data_size after the previous block
+        self.ingest_hold = {}             # obs -> when its ingest machines were taken / given back
         self.rowcheck = 0
         self.blocks = 0
         self.tier_moves = 0
@@ -345,6 +346,30 @@ class Monitors(Listener):
             for m in cv["available"] + [x for _, l in cv["idle"] for x in l]:
                 if self.active.get(m):
                     self.viol("C01", "free-machine-hosts-body", "%s: %s" % (m, self.active[m]))
+        # C08: ingest holds the pipeline's machine demand for the observation's duration (pool membership, by
+        # event time: from the provisioning block to the block that gives the machines back)
+        if self.want("C08"):
+            now_t = F(sim.env.now)
+            held = {}
+            for t in cv["running"]:
+                if "_ingest_t" in t:
+                    nm = t.rsplit("_ingest_t", 1)[0]
+                    held[nm] = held.get(nm, 0) + 1
+            for o in tel.observations:
+                h = held.get(o.name, 0)
+                st = self.ingest_hold.setdefault(o.name, {"from": None, "to": None, "max": 0})
+                if h > 0 and st["from"] is None:
+                    st["from"] = now_t
+                st["max"] = max(st["max"], h)
+                if h == 0 and st["from"] is not None and st["to"] is None:
+                    st["to"] = now_t
+                    d = F(o.duration)
+                    if st["to"] - st["from"] != d:
+                        early = (st["to"] - st["from"] == d - 1) and d >= 3
+                        self.viol("C08", "ingest-machines-not-held-for-duration",
+                                  "%s: %d machines held from t=%s to t=%s, duration %s" % (
+                                      o.name, st["max"], fr(st["from"]), fr(st["to"]), fr(o.duration)),
+                                  sig="ingest-hold-time" + (":one-step-short:duration>=3" if early else ""))
         # C08 limits
         if tel.telescope_use > tel.total_arrays or tel.telescope_use < 0:
             self.viol("C08", "array-use-out-of-range", "%s of %s" % (tel.telescope_use, tel.total_arrays))
